@@ -370,7 +370,7 @@ func stripConv(v ssa.Value) ssa.Value {
 // sliceLiteralElems: if v is a slice literal ([]T{a,b,...}) returns its element values.
 func sliceLiteralElems(v ssa.Value) ([]ssa.Value, bool) {
 	sl, ok := v.(*ssa.Slice)
-	if !ok || sl.Low != nil || sl.High != nil {
+	if !ok || sl.Low != nil {
 		return nil, false
 	}
 	al, ok := sl.X.(*ssa.Alloc)
@@ -381,8 +381,19 @@ func sliceLiteralElems(v ssa.Value) ([]ssa.Value, bool) {
 	if !ok {
 		return nil, false
 	}
+	// make([]T, n) with a constant n is compiled as a whole-array slice with an explicit upper bound
+	if sl.High != nil {
+		if k, isK := constInt(sl.High); !isK || k != arr.Len() {
+			return nil, false
+		}
+	}
 	elems := make([]ssa.Value, arr.Len())
-	for _, r := range *al.Referrers() {
+	refs := append([]ssa.Instruction(nil), *al.Referrers()...)
+	if sl.Referrers() != nil {
+		// keys := make([]string, 2); keys[0], keys[1] = a, b: the elements are stored through the slice
+		refs = append(refs, *sl.Referrers()...)
+	}
+	for _, r := range refs {
 		ia, ok := r.(*ssa.IndexAddr)
 		if !ok {
 			continue
